@@ -1232,6 +1232,20 @@ fn items_ok_rs(its: &[SItem]) -> bool {
     // phase 6 (C06SentenceDot.v: sentp_ok): ONE final period after a sentence of the class whose last item, when it is a word,
     // is none of the words condense_latin looks for in front of a period (etc, vs, al — any ASCII capitalisation)
     if let Some((SItem::P('.'), front)) = its.split_last() {
+        // phase 7 (C06SentenceContrDot.v: sentcp_ok): contractions in front of the final period — the front is grouped and collapsed
+        // like a sentence with contractions, the etc / vs / al condition is evaluated on the last COLLAPSED item
+        if front.iter().any(|it| matches!(it, SItem::P('\'') | SItem::P('\u{2019}'))) {
+            return match contr_collapse(front) {
+                Some(col) => match col.last() {
+                    Some(SItem::W(w)) => {
+                        let ws: String = w.iter().collect();
+                        !(w.len() == ws.len() && ["etc", "vs", "al"].iter().any(|x| ws.eq_ignore_ascii_case(x)))
+                    }
+                    _ => true,
+                },
+                None => false,
+            };
+        }
         if let Some(SItem::W(w)) = front.last() {
             let ws: String = w.iter().collect();
             if w.len() == ws.len() && ["etc", "vs", "al"].iter().any(|x| ws.eq_ignore_ascii_case(x)) {
@@ -1399,7 +1413,18 @@ fn sentence_items_case(cx: &mut Ctx, rep: &mut Report, _shared: &mut Rng, its: &
     let (text, _, _) = items_text(its);
     // expected tokens: one per item — after condense_contractions, i.e. per item of the collapsed list (phase 6, step 2)
     let has_apos = its.iter().any(|it| matches!(it, SItem::P('\'') | SItem::P('\u{2019}')));
-    let collapsed: Vec<SItem> = if ok && has_apos && !matches!(its.last(), Some(SItem::P('.'))) { contr_collapse(its).unwrap_or_else(|| its.to_vec()) } else { its.to_vec() };
+    let collapsed: Vec<SItem> = if ok && has_apos {
+        if let Some((SItem::P('.'), front)) = its.split_last() {
+            // phase 7: contractions + final period — the collapsed front, then the Period token
+            let mut c = contr_collapse(front).unwrap_or_else(|| front.to_vec());
+            c.push(SItem::P('.'));
+            c
+        } else {
+            contr_collapse(its).unwrap_or_else(|| its.to_vec())
+        }
+    } else {
+        its.to_vec()
+    };
     let (_, spans, wspans) = items_text(&collapsed);
     let line = format!("S {}", items_line(its));
     rep.count(&format!("sentence_items:{}:{}", what, if ok { "in the class" } else { "outside the class" }));
@@ -1432,7 +1457,7 @@ fn sentence_items_case(cx: &mut Ctx, rep: &mut Report, _shared: &mut Rng, its: &
     if iw != wspans {
         rep.fail(
             "sentence_tokens_differ",
-            format!("{:?} is a sentence of the class (words = letter + letters/digits, blanks, separator punctuation, optionally one final period / contractions w'w): one token per (collapsed) item {:?} with Word tokens {:?} expected, the implementation yields tokens {:?} with Word tokens {:?}", s, spans, wspans, all, iw),
+            format!("{:?} is a sentence of the class (words = letter + letters/digits, blanks, separator punctuation, optionally contractions w'w and / or one final period): one token per (collapsed) item {:?} with Word tokens {:?} expected, the implementation yields tokens {:?} with Word tokens {:?}", s, spans, wspans, all, iw),
             inp,
         );
         return false;
@@ -2043,6 +2068,80 @@ fn main() {
             its.push(SItem::P('\''));
         }
         sentence_items_case(&mut cx, &mut rep, &mut rc, &its, "generated, contractions", true);
+    }
+    // ----- phase 7, step 1: CONTRACTIONS AND A FINAL PERIOD (C06SentenceContrDot.v; theorems C06_sentence_contraction_period_*): the
+    // contraction sentences above (own generator) followed by `.`; 1 in 8 ends with etc / vs / al / et al (outside), 1 in 8 with a
+    // contraction right in front of the period (don't. / MP3's. / a's.), 1 in 25 with two periods
+    let mut rd = Rng::new(args.seed ^ 0xC0_17AC_D07);
+    for i in 0..args.scale(500, 10_000) {
+        if i % 64 == 0 && enough(&mut rep) {
+            break;
+        }
+        let base = random_items(&cx, &mut rd);
+        let mut its: Vec<SItem> = vec![];
+        let mut any = false;
+        for it in base {
+            match it {
+                SItem::W(w) if rd.chance(1, 2) || !any => {
+                    any = true;
+                    let q = if rd.chance(1, 3) { '\u{2019}' } else { '\'' };
+                    let (w1, w2): (Vec<char>, Vec<char>) = match rd.below(10) {
+                        0..=5 if !contractions.is_empty() => {
+                            let c = rd.pick(&contractions).clone();
+                            let c = match rd.below(6) { 0 => cap1(&c), 1 => upper(&c), 2 => mutate(&mut rd, &c), _ => c };
+                            match c.iter().position(|x| *x == '\'') {
+                                Some(k) => (c[..k].to_vec(), c[k + 1..].to_vec()),
+                                None => (c.clone(), vec!['s']),
+                            }
+                        }
+                        6 => (w.clone(), vec!['s']),
+                        7 => (random_body(&mut rd), random_body(&mut rd)),
+                        8 => (vec![*rd.pick(&['a', 'I', 'x', 'o', 'A'])], chars(*rd.pick(&["s", "s", "so", "clock", "m", "S"]))),
+                        _ => (w.clone(), chars(*rd.pick(&["t", "ll", "re", "ve", "d", "s5", "5s", ""]))),
+                    };
+                    its.push(SItem::W(w1));
+                    its.push(SItem::P(q));
+                    its.push(SItem::W(w2));
+                }
+                other => its.push(other),
+            }
+        }
+        match rd.below(8) {
+            0 => {
+                if !matches!(its.last(), Some(SItem::S(_)) | None) {
+                    its.push(SItem::S(1 + rd.below(2)));
+                }
+                if rd.chance(1, 3) {
+                    its.push(SItem::W(chars(*rd.pick(&["et", "Et"]))));
+                    its.push(SItem::S(1));
+                    its.push(SItem::W(chars(*rd.pick(&["al", "Al", "all"]))));
+                } else {
+                    its.push(SItem::W(chars(*rd.pick(&["etc", "Etc", "ETC", "vs", "VS", "al", "etcs", "et"]))));
+                }
+            }
+            1 => {
+                if !matches!(its.last(), Some(SItem::S(_)) | None) {
+                    its.push(SItem::S(1));
+                }
+                let (w1, w2) = match rd.below(5) {
+                    // x'vs. / x'etc.: condense_latin runs AFTER condense_contractions and sees the merged word (in the class)
+                    4 => (chars(*rd.pick(&["I", "we", "x", "MP3"])), chars(*rd.pick(&["vs", "etc", "VS", "Etc", "al"]))),
+                    0 => (chars("a"), chars("s")),
+                    1 => (random_body(&mut rd), chars("s")),
+                    2 => (chars(*rd.pick(&["et", "v", "e"])), chars(*rd.pick(&["c", "s", "al"]))),
+                    _ => (chars("don"), chars("t")),
+                };
+                its.push(SItem::W(w1));
+                its.push(SItem::P(if rd.chance(1, 3) { '\u{2019}' } else { '\'' }));
+                its.push(SItem::W(w2));
+            }
+            _ => {}
+        }
+        its.push(SItem::P('.'));
+        if rd.chance(1, 25) {
+            its.push(SItem::P('.'));
+        }
+        sentence_items_case(&mut cx, &mut rep, &mut rd, &its, "generated, contractions + final period", true);
     }
     {
         let multi: Vec<String> = cx.multi_committed.iter().cloned().collect();
